@@ -245,7 +245,9 @@ int FSolver::StaticAxisymmetric(CBigLinProb &L)
 
             default:
 
-                if (fabs(q[0])<1.e-06)
+                if (fabs(q[0])<1.e-06 && fabs(q[1])<1.e-06 && fabs(q[2])<1.e-06)
+                    R_hat=R; // narrower than the tolerance of the special cases below (their formulas give 0/0)
+                else if (fabs(q[0])<1.e-06)
                     R_hat=(q[1]*q[1])/(2.*(-q[1] + rn[0]*log(rn[0]/rn[2])));
                 else if (fabs(q[1])<1.e-06)
                     R_hat=(q[2]*q[2])/(2.*(-q[2] + rn[1]*log(rn[1]/rn[0])));
